@@ -3,7 +3,10 @@
 //! Contains no generation logic and no expectations.
 use std::io::{BufRead, Write};
 
+mod gen_rt;
+mod gen_types;
 mod pk;
+mod rt;
 mod st;
 
 fn handle(line: &str) -> String {
@@ -15,6 +18,14 @@ fn handle(line: &str) -> String {
     let out = match stream {
         "pk" => pk::run(&args),
         "st" => st::run(&args),
+        "T" => "decl".into(),
+        "tk" => match args.split_first() {
+            Some((tid, rest)) => match tid.parse::<usize>() {
+                Ok(tid) => std::panic::catch_unwind(|| gen_types::dispatch_tk(tid, rest)).unwrap_or_else(|_| "panic".into()),
+                Err(_) => "bad-op".into(),
+            },
+            None => "bad-op".into(),
+        },
         _ => "bad-op".into(),
     };
     format!("{id} {out}")
